@@ -45,6 +45,7 @@ def check_C01(ctx, tier):
         W.rule_W_WRITERS(ctx, d)
         if d.name == 'lru_cache':
             _sample_paths(ctx, d, paths, lambda o: o.kind == 'return' and any(e.kind == 'DEL' for e in o.st.events))
+    S.rule_S_LOAD_DUMP(ctx, ctx.repo)      # load/dump copy values under the same key (used by the inductive argument)
     ctx.require_instances('W-KEY', 36, 'key uses')
     ctx.require_instances('W-ARGS', 12, 'evaluation sites')
     ctx.assume('an entry (k -> v) in memory or archive satisfies v = f(a) for K(a) = k at the start of the call (inductive hypothesis)')
@@ -63,6 +64,7 @@ def check_C02(ctx, tier):
         W.rule_W_KEY(ctx, d, paths)
         if d.name == 'lfu_cache':
             _sample_paths(ctx, d, paths, lambda o: o.kind == 'return' and any(e.kind == 'EVAL' for e in o.st.events) and o.st.facts.get('archived'))
+    S.rule_S_LOAD_DUMP(ctx, ctx.repo)      # load(k) finds what dump(k) wrote, at the cache level
     ctx.assume('cache.load(k) retrieves what cache.dump(k) stored for every backend (C03/C04/C08 decide their structural part)')
     ctx.assume('cache.archived() and purge have one value during a single wrapper call')
     return ('Compute-once on every path: at most one evaluation; evaluation only directly after a failed lookup of K which, '
@@ -74,6 +76,7 @@ def check_C05(ctx, tier):
         W.setup_abbrev(d)
         W.rule_W_CAP(ctx, d, paths)
         W.rule_W_BK(ctx, d, paths)
+        W.rule_W_BKRES(ctx, d, paths)
         W.rule_W_NEW(ctx, d)
         W.rule_W_CLEAR(ctx, d)
         if d.name == 'mru_cache':
@@ -92,6 +95,7 @@ def check_C06(ctx, tier):
         W.rule_W_POL(ctx, d, paths)
         W.rule_W_HITPURE(ctx, d, paths)
         W.rule_W_BK(ctx, d, paths)
+        W.rule_W_BKRES(ctx, d, paths)
         if d.name == 'lru_cache' and d.modname == '_cache':
             _sample_paths(ctx, d, paths, lambda o: o.kind == 'return' and any((e.extra or {}).get('driver') for e in o.st.events))
     ctx.assume('tie-breaking among equal counts/recencies and residency of the selected victim are not decided')
@@ -109,6 +113,8 @@ def check_C07(ctx, tier):
         W.rule_W_WRITERS(ctx, d)
         if d.name == 'rr_cache':
             _sample_paths(ctx, d, paths, lambda o: o.kind == 'return' and any(e.kind == 'DUMP' for e in o.st.events))
+    S.rule_S_LOAD_DUMP(ctx, ctx.repo)      # S-DUMP: dump(k) writes exactly {k: self[k]} for resident k and removes nothing
+    A.rule_A_PUBFAIL(ctx, ctx.repo, A.Cache(ctx.repo))   # a failed write-back never replaces or removes what is archived
     return ('Every DEL(v)/CLEAR on a path with an archive attached is preceded by DUMP(v)/DUMP(*) with no intervening store; wrappers '
             'and management closures never touch the archive except through cache.dump/load.')
 
@@ -167,6 +173,7 @@ def check_C10(ctx, tier):
     K.rule_K_INFO_TYPED_SENT(ctx, ctx.repo)
     K.rule_K_HASH(ctx, ctx.repo)
     K.rule_K_DISPATCH(ctx, ctx.repo)
+    K.rule_K_FAST(ctx, ctx.repo)
     ctx.assume('injectivity of repr/str/pickle of the argument values and fast-type unwrapping collisions are not decided')
     return ('Every positional argument and every (name, value) keyword item reaches the key whole on every path of keymap.encode/encrypt; '
             'typed keys append the types of all positional and all keyword values; a configured sentinel separates every two adjacent '
@@ -220,6 +227,8 @@ def check_C03(ctx, tier):
     A.rule_A_OVR_BASE(ctx, ctx.repo, cache)
     A.rule_A_EFF(ctx, ctx.repo, cache)
     A.rule_A_KEYERR(ctx, ctx.repo, cache)
+    A.rule_A_EQ(ctx, ctx.repo, cache)
+    A.rule_A_PUBFAIL(ctx, ctx.repo, cache)
     A.rule_A_VIS_STAGE(ctx, ctx.repo, cache)
     S.rule_S_PLAIN_EFF(ctx, ctx.repo)
     S.rule_S_NULL(ctx, ctx.repo)
@@ -251,6 +260,7 @@ def check_C13(ctx, tier):
     A.rule_A_VIS_STAGE(ctx, ctx.repo, cache)
     A.rule_A_FACTORY_OPEN(ctx, ctx.repo, cache, open_only=True)
     A.rule_A_COMMIT(ctx, ctx.repo, cache)
+    A.rule_A_TXN(ctx, ctx.repo, cache)
     ctx.tables['primitives'] = A.PRIMITIVES
     ctx.assume('torn writes inside a single write(), fsync and power loss are not decided; crash points themselves are not enumerated - only '
                'structural necessary conditions of the temp-then-move protocols are')
@@ -265,6 +275,7 @@ def check_C14(ctx, tier):
     A.rule_A_VIS_STAGE(ctx, ctx.repo, cache)
     A.rule_A_FACTORY_OPEN(ctx, ctx.repo, cache, open_only=True)
     A.rule_A_COMMIT(ctx, ctx.repo, cache)
+    A.rule_A_TXN(ctx, ctx.repo, cache)
     A.rule_A_LISTREAD(ctx, ctx.repo, cache)
     A.rule_A_UNPUB(ctx, ctx.repo, cache)
     ctx.tables['primitives'] = A.PRIMITIVES
@@ -295,11 +306,53 @@ CHECKS = {
 }
 
 
+def liveness(ctx, prop, repo_root):
+    """thorough tier: every rule of this property must still fire on a one-edit violating variant of the
+    current tree (positive fixtures; a rule that matches nothing passes vacuously forever).  Variants are scratch
+    copies under the system temp dir, removed as each finishes."""
+    import os
+    import sys
+    from concurrent.futures import ProcessPoolExecutor
+    st = os.path.join(os.path.dirname(os.path.dirname(os.path.abspath(__file__))), 'selftest')
+    if st not in sys.path:
+        sys.path.insert(0, st)
+    os.environ['KV_REPO'] = repo_root or ctx.repo.root
+    import importlib
+    run = importlib.import_module('run')
+    run.REPO = repo_root or ctx.repo.root
+    from mutants import MUTANTS
+    ms = [dict(m, props=[prop]) for m in MUTANTS if prop in m['props']]
+    saved = dict((k, os.environ.get(k)) for k in ('KV_OUTROOT', 'KV_REPO'))
+    try:
+        with ProcessPoolExecutor(min(16, max(1, len(ms)))) as ex:
+            results = list(ex.map(run.job_kill, ms))
+    finally:
+        for k, v in saved.items():
+            if v is None:
+                os.environ.pop(k, None)
+            else:
+                os.environ[k] = v
+    missed = []
+    for (mid, ok, msg), m in zip(results, ms):
+        if ok:
+            ctx.ob('LIVENESS', '%s -> %s' % (mid, m.get('rule') or 'any rule'))
+        elif 'anchor' in msg and 'not found' in msg:
+            ctx.note('liveness variant %s not applicable to this tree (its edit site changed)' % mid)
+        else:
+            ctx.ob('LIVENESS', mid, False)
+            missed.append('%s (%s)' % (mid, msg))
+    if missed:
+        raise AnalysisError('liveness: violating variants not detected by the %s check: %s' % (prop, '; '.join(missed)))
+    ctx.sample({'liveness variants detected': [r[0] for r in results if r[1]][:10]})
+
+
 def run(prop, tier='quick', repo_root=None):
     repo = Repo(repo_root)
     ctx = Ctx(prop, tier, repo)
     fn = CHECKS[prop]
     rule_text = fn(ctx, tier)
+    if tier == 'thorough' and not __import__('os').environ.get('KV_NO_LIVENESS'):
+        liveness(ctx, prop, repo_root)
     return finish(ctx, rule_text,
                   'Static analysis of /repo source (ast only, nothing imported or executed). ' + rule_text +
                   ' evaluations = enumerated paths + rule obligations; distinct_nontrivial = distinct event paths with at least one role '
